@@ -490,6 +490,12 @@ def _lift_float(rng: random.Random, x: float, v0: dict, names: dict):
 
 
 def _lift_int(rng: random.Random, d: int, v0: dict, names: dict):
+    if "a" in names and rng.random() < 0.2:
+        # an integer position fed by FLOAT arithmetic: a * (d / a0) evaluates to d
+        # up to one ulp, i.e. sometimes to d - 1e-14 (truncated to d - 1 by int())
+        a0 = float(np.asarray(v0["a"]).reshape(-1)[0])
+        if a0:
+            return {"e": "bin", "op": "*", "a": {"e": "var", "name": "a"}, "b": d / a0}
     if "n" not in names:
         return d
     n0 = int(np.asarray(v0["n"]).reshape(-1)[0])
@@ -816,7 +822,9 @@ class TemplateRun:
             elif kind == "invalid-n" and "n" in vals:
                 vals["n"] = -8
             elif kind == "invalid-a" and "a" in vals:
-                vals["a"] = 1e7
+                # (bounded: when `a` also feeds a duration, 1e7 would ask for a
+                # waveform of 1e9 samples)
+                vals["a"] = 1e7 if '"d": {"e": "bin", "op": "*", "a": {"e": "var", "name": "a"}' not in json.dumps(self.world["program"]) else vals["a"] * 40
             elif kind == "extra":
                 vals["not_a_variable"] = 1.0
             if kind in ("missing", "size") and (set(vals) != set(names) or kind == "size"):
